@@ -38,8 +38,7 @@ def run(ctx, res):
     cov["not_compared"] = ["key order of as_json(sort=False) (plain dict, arbitrary before 3.7)",
                            "!= (no __ne__ on 2.7; outside the statement)",
                            "float() spellings Python itself changed (PEP 515 '7_5')",
-                           "non-ASCII argv on 2.7 (bytes)",
-                           "command lines with several version flags (any of them is admitted, C17)"]
+                           "non-ASCII argv on 2.7 (bytes)"]
     cov["rule"] = ("states = (interpreter, input) pairs; the probe enumerates vectors of every version, "
                    "invalid strings, RH notation, texts, builder scripts and command lines, evaluates "
                    "them on the real library and prints a digest per chunk of canonical JSON result "
